@@ -394,7 +394,10 @@ func (i *Int) BigEndian(minBytes, maxBytes int) []byte {
 		panic("Int not representable in max bytes")
 	}
 	buf := make([]byte, pad)
-	copy(buf[ofs:], i.V.Bytes(nil))
+	vBytes := i.V.Bytes(nil)
+	// the value may have fewer bytes than the modulus: right-align it
+	ofs += act - len(vBytes)
+	copy(buf[ofs:], vBytes)
 	return buf
 }
 
